@@ -300,15 +300,15 @@ def _classify_use(prog, fn, pm, name, stmt, flow, st, partition_callees):
             return None
         if len(ops) == 1 and isinstance(ops[0], (ast.Eq, ast.NotEq)):
             other = others[1] if others[0] is node else others[0]
-            if flow.status(other, st) & {RAW, CANON, CANON1} or _mentions(other, st):
-                return None
+            if RAW in flow.status(other, st) or _mentions_raw(other, st):
+                return None          # equality between two raw label expressions (same label namespace)
             if isinstance(other, ast.Constant) and other.value is None:
                 return None
             return 'raw labels compared with `%s` (a module index or literal): result depends on the label values' % norm(other)
         return 'raw labels ordered/compared with `%s`' % norm(par)
     if isinstance(par, ast.BinOp):
         other = par.right if par.left is node else par.left
-        if isinstance(par.op, ast.Sub) and (flow.status(other, st) & {RAW, CANON, CANON1} or _mentions(other, st)):
+        if isinstance(par.op, ast.Sub) and (RAW in flow.status(other, st) or _mentions_raw(other, st)):
             # label difference: safe only if it is immediately zero-tested
             gp = pm.parent.get(par)
             if isinstance(gp, ast.Call):
@@ -346,3 +346,7 @@ def _classify_use(prog, fn, pm, name, stmt, flow, st, partition_callees):
 
 def _mentions(e, st):
     return any(isinstance(n, ast.Name) and n.id in st and st[n.id] for n in ast.walk(e))
+
+
+def _mentions_raw(e, st):
+    return any(isinstance(n, ast.Name) and RAW in st.get(n.id, ()) for n in ast.walk(e))
